@@ -199,6 +199,13 @@ def main_wrapper(fn):
         sys.exit(2)
     except SystemExit:
         raise
+    except BrokenPipeError:
+        # the reader of our stdout went away (e.g. `| head`): nothing more can be reported
+        try:
+            sys.stdout.close()
+        except Exception:
+            pass
+        os._exit(141)
     except BaseException as e:  # noqa
         import traceback
 
